@@ -111,10 +111,26 @@ def systematic(tier):
                 kinds = ["int", "dt"] if tier == "quick" else KINDS
                 for kind in kinds:
                     cases.append({"mode": "count", "n_in": n_in, "n_out": n_out, "known": known, "kind": kind, "dups": (n_in + n_out) % 2 == 0})
+    # larger counts: every pair whose float ratio rounds below n_in (int(n_out * (n_in / n_out)) != n_in,
+    # plain arithmetic, independent of the planner) and a thinned sample of the rest
+    M = 48 if tier == "quick" else 100
+    for n_in in range(N + 1, M + 1):
+        for n_out in range(1, n_in + 3):
+            rounding = n_out < n_in and int(n_out * (n_in / n_out)) != n_in
+            if rounding or (n_in * 31 + n_out * 7) % (23 if tier == "quick" else 5) == 0:
+                cases.append({"mode": "count", "n_in": n_in, "n_out": n_out, "known": (n_in + n_out) % 3 != 0, "kind": "int", "dups": False})
     for size in (200, 500, 2000, 100000):
         for n_in in (1, 3, 7):
             for known in (True, False):
                 cases.append({"mode": "size", "n_in": n_in, "size": size, "known": known})
+    # uneven partitions: some are split, others pass through or are merged (seeded change C13-c)
+    shapes = [[60, 4, 5, 3], [3, 60, 4, 5], [4, 5, 60], [60, 70, 3], [3, 4, 60, 5, 70, 2], [50, 2, 2, 2, 2, 40, 1]]
+    if tier != "quick":
+        shapes += [[a, b, c] for a in (2, 30, 90) for b in (2, 30, 90) for c in (2, 30, 90)]
+    for shape in shapes:
+        for size in (300, 500, 1000, 2000, 5000):
+            for known in (True, False):
+                cases.append({"mode": "size", "n_in": len(shape), "shape": shape, "size": size, "known": known})
     for freq in ("1D", "2D", "3D", "7D", "36h"):
         for n_in in (1, 2, 5):
             cases.append({"mode": "freq", "n_in": n_in, "freq": freq})
@@ -292,9 +308,18 @@ def check_count(case):
 def check_size(case):
     import dask_expr as dx
 
-    pdf = _count_frame(case["n_in"] * 4, "int", False)
+    shape = case.get("shape")
+    if shape:
+        n = sum(shape)
+        pdf = pd.DataFrame({"rid": np.arange(n), "x": np.arange(n) * 0.5}, index=pd.Index(np.arange(n), name="ix"))
+    else:
+        pdf = _count_frame(case["n_in"] * 4, "int", False)
     pdf["pad"] = pd.array(["x" * 40] * len(pdf), dtype="string[pyarrow]")
-    ddf = dx.from_pandas(pdf, npartitions=case["n_in"])
+    if shape:
+        offs = np.cumsum([0] + list(shape))
+        ddf = dx.concat([dx.from_pandas(pdf.iloc[offs[i]:offs[i + 1]], npartitions=1) for i in range(len(shape))])
+    else:
+        ddf = dx.from_pandas(pdf, npartitions=case["n_in"])
     if not case["known"]:
         ddf = ddf.clear_divisions()
     failures = []
@@ -308,7 +333,7 @@ def check_size(case):
         failures.append(_fail("rows-or-order", f"size: output rids {res['rid'].tolist()} != input"))
     if not (coll.npartitions == len(parts)):
         failures.append(_fail("npartitions", f"size: reported {coll.npartitions}, computed {len(parts)}"))
-    return {"failures": failures, "nontrivial": [f"size|{case['n_in']}|{case['size']}|{case['known']}"] if len(parts) != ddf.npartitions else False, "classes": ["mode:size"], "sample": case}
+    return {"failures": failures, "nontrivial": [f"size|{case.get('shape') or case['n_in']}|{case['size']}|{case['known']}"] if len(parts) != ddf.npartitions else False, "classes": ["mode:size"] + (["size:uneven"] if shape else []), "sample": case}
 
 
 def check_freq(case):
